@@ -4,12 +4,11 @@ Encoded (real code): VizierServicer.SuggestTrials / GetOperation, NestedDictRAMD
 TrialConverter.to_protos, StudyConfig.from_proto.  Pythia is a stub that delivers p suggestions (p symbolic relative to
 the number asked: under / exact / over delivery).
 """
-from engine.hsupport import NoTracing, conc, finish, known, reach
+from engine.hsupport import NoTracing, conc, finish, reach
 from harness import svc
 from harness.svc import ACTIVE, REQUESTED, S, SUCCEEDED
 from vizier._src.service import vizier_service_pb2 as vs
 
-KF_UNDER = 'C02-C06-underdelivery-indexerror'
 ASSUMPTIONS = [
     'Pythia replaced by a stub delivering p suggestions; p = asked + offset, offset in -2..+2',
     'pre-state: a own ACTIVE, b other-worker ACTIVE, r REQUESTED, c completed trials, ids in that creation order or '
@@ -56,8 +55,6 @@ def _check(n, a, b, r, c, order, off, args):
   before = svc.abstract(sv)
   need = max(0, n - a - r)
   delivered = max(0, need + off) if need > 0 else 0
-  if need > 0 and delivered < need and known(KF_UNDER):
-    return True
   op, exc = svc.call(sv.SuggestTrials, vs.SuggestTrialsRequest(parent=S, suggestion_count=n, client_id='w'))
   reach('need%d_off%d' % (min(need, 1), off) if need else 'noneed')
   if exc is not None:
@@ -116,14 +113,34 @@ def _check(n, a, b, r, c, order, off, args):
   return finish(ok, args, obs='ok' if ok else 'sticky')
 
 
-def suggest_step(n: int, a: int, b: int, r: int, c: int, order: int, off: int) -> bool:
+def _step(n, a, b, r, c, order, off):
+  n, a, b, r, c = conc(n, 1, 3), conc(a, 0, 2), conc(b, 0, 1), conc(r, 0, 2), conc(c, 0, 1)
+  off = conc(off, -2, 2)
+  return _check(n, a, b, r, c, order, off, (n, a, b, r, c, off))
+
+
+def suggest_step_order0(n: int, a: int, b: int, r: int, c: int, off: int) -> bool:
   """
-  pre: 1 <= n <= 3 and 0 <= a <= 2 and 0 <= b <= 1 and 0 <= r <= 2 and 0 <= c <= 1 and 0 <= order <= 2 and -2 <= off <= 2
+  pre: 1 <= n <= 3 and 0 <= a <= 2 and 0 <= b <= 1 and 0 <= r <= 2 and 0 <= c <= 1 and -2 <= off <= 2
   post: _
   """
-  n, a, b, r, c = conc(n, 1, 3), conc(a, 0, 2), conc(b, 0, 1), conc(r, 0, 2), conc(c, 0, 1)
-  order, off = conc(order, 0, 2), conc(off, -2, 2)
-  return _check(n, a, b, r, c, order, off, (n, a, b, r, c, order, off))
+  return _step(n, a, b, r, c, 0, off)
+
+
+def suggest_step_order1(n: int, a: int, b: int, r: int, c: int, off: int) -> bool:
+  """
+  pre: 1 <= n <= 3 and 0 <= a <= 2 and 0 <= b <= 1 and 0 <= r <= 2 and 0 <= c <= 1 and -2 <= off <= 2
+  post: _
+  """
+  return _step(n, a, b, r, c, 1, off)
+
+
+def suggest_step_order2(n: int, a: int, b: int, r: int, c: int, off: int) -> bool:
+  """
+  pre: 1 <= n <= 3 and 0 <= a <= 2 and 0 <= b <= 1 and 0 <= r <= 2 and 0 <= c <= 1 and -2 <= off <= 2
+  post: _
+  """
+  return _step(n, a, b, r, c, 2, off)
 
 
 def suggest_step_big(n: int, a: int, r: int, off: int) -> bool:
